@@ -20,6 +20,7 @@ mod c05;
 mod c01;
 mod c03;
 mod c09;
+mod c04;
 
 pub type Gen = fn(&mut util::Rng, &str) -> String;
 pub type Exec = fn(&[&str]) -> String;
@@ -42,6 +43,9 @@ fn table(prop: &str) -> Option<(Gen, Exec)> {
         "C09" => Some((c09::gen09, c09::exec09)),
         "C18" => Some((c09::gen18, c09::exec18)),
         "C20" => Some((c09::gen20, c09::exec20)),
+        "C04" => Some((c04::gen04, c04::exec04)),
+        "C06" => Some((c04::gen06, c04::exec06)),
+        "C19" => Some((c04::gen19, c04::exec19)),
         "C12" => Some((c13::gen12, c13::exec)),
         _ => None,
     }
